@@ -1218,10 +1218,11 @@ fn challenge_body(d: &[u8], proto: u64, s2c: &[u8; 32]) -> Option<Vec<u8>> {
 
 fn script_attacker(rng: &mut Rng, _tier: Tier, f: &mut dyn FnMut(&str) -> String) {
     let mut sc = Sc::new(f);
-    let scenario = rng.below(7);
+    let scenario = rng.below(8);
     let max = match scenario {
         3 => 1,
         6 => rng.pick(&[1usize, 2]),
+        7 => rng.pick(&[1usize, 2, 3]),
         _ => rng.pick(&[2usize, 3]),
     };
     let srv = setup_server(&mut sc, rng, max);
@@ -1236,7 +1237,7 @@ fn script_attacker(rng: &mut Rng, _tier: Tier, f: &mut dyn FnMut(&str) -> String
         spec.timeout = 5;
         specs.push(spec);
     }
-    if scenario == 2 {
+    if scenario == 2 || scenario == 7 {
         specs[1].id = specs[0].id; // two tokens for one id
     }
     let mut cls: Vec<Cl> = vec![];
@@ -1369,6 +1370,37 @@ fn script_attacker(rng: &mut Rng, _tier: Tier, f: &mut dyn FnMut(&str) -> String
                 sc.op("srv-setmax 0 0");
                 srv_rx(&mut sc, &a[2], &reqs[2]);
                 srv_rx(&mut sc, &a4(10, 3, 0, 9, 4309), &reqs[2]);
+            }
+        }
+        7 => {
+            // B (address 1) is half-open for client id X; X then connects from A (address 0) with another token;
+            // B's retried request and its response must not be answered (server full or not)
+            let (_, ch_b) = srv_rx(&mut sc, &a[1], &reqs[1]);
+            sc.op("srv-dump 0");
+            fast_connect_at(&mut sc, &cls[0], 1);
+            sc.op("srv-dump 0");
+            srv_rx(&mut sc, &a[1], &reqs[1]);
+            if rng.chance(1, 2) {
+                srv_rx(&mut sc, &a[1], &reqs[1]);
+            }
+            sc.op("srv-dump 0");
+            if let Some(ch) = ch_b {
+                sc.op(&format!("cli-rx 1 {}", hex(&ch)));
+                if let (_, Some(k)) = sc.opd("cli-upd 1 0") {
+                    let resp = sc.hist[k].bytes.clone();
+                    srv_rx(&mut sc, &a[1], &resp);
+                    srv_rx(&mut sc, &a[1], &reqs[1]);
+                }
+            }
+            // a third party is not disturbed (when there is room)
+            let (_, ch2) = srv_rx(&mut sc, &a[2], &reqs[2]);
+            if let Some(ch2) = ch2 {
+                sc.op(&format!("cli-rx 2 {}", hex(&ch2)));
+            }
+            // X leaves: B may start over
+            if rng.chance(1, 2) {
+                sc.op(&format!("srv-disc 0 {}", cls[0].tok.spec.id));
+                srv_rx(&mut sc, &a[1], &reqs[1]);
             }
         }
         6 => {
@@ -1951,7 +1983,7 @@ fn script_wire(rng: &mut Rng, tier: Tier, f: &mut dyn FnMut(&str) -> String) {
 // profile 0: nc-regress — one fixed op list per repaired defect (deterministic, run on every check)
 // =============================================================================================
 
-const REGRESS_CASES: usize = 16;
+const REGRESS_CASES: usize = 18;
 
 fn regress_script(case: usize, f: &mut dyn FnMut(&str) -> String) {
     let mut rng = Rng::new(0xD1CE + case as u64);
@@ -2316,6 +2348,83 @@ fn regress_script(case: usize, f: &mut dyn FnMut(&str) -> String) {
                 }
             }
         }
+        // a full token of 32 addresses, only the last one alive: every address gets its turn, the last one connects
+        16 => {
+            let list: Vec<String> = (0..32).map(|j| if j == 31 { SRV_A.to_string() } else { a4(10, 55, 0, j as u8, 5600 + j as u16) }).collect();
+            let mut spec = base_spec(rng, 48, proto, key, 5, &list.join(","));
+            spec.expire = 305;
+            spec.seal_expire = 305;
+            spec.timeout = 1;
+            let a = a4(10, 9, 0, 8, 4908);
+            if let Some(c) = new_client(&mut sc, 5, &a, &spec, 5_000_000) {
+                sc.op("cli-upd 5 0");
+                let mut req: Option<Vec<u8>> = None;
+                for _ in 0..31 {
+                    let (_, e) = sc.opd("cli-upd 5 1050000");
+                    sc.op("cli-q 5");
+                    if let Some(k) = e {
+                        if sc.hist[k].to == SRV_A {
+                            req = Some(sc.hist[k].bytes.clone());
+                        }
+                    }
+                }
+                sc.op("srv-upd 0 32550000");
+                if let Some(req) = req {
+                    if let (_, Some(k)) = sc.opd(&format!("srv-rx 0 {} {}", c.addr, hex(&req))) {
+                        let chal = sc.hist[k].bytes.clone();
+                        sc.op(&format!("cli-rx 5 {}", hex(&chal)));
+                        if let (_, Some(k)) = sc.opd("cli-upd 5 0") {
+                            let resp = sc.hist[k].bytes.clone();
+                            if let (_, Some(k)) = sc.opd(&format!("srv-rx 0 {} {}", c.addr, hex(&resp))) {
+                                let ka = sc.hist[k].bytes.clone();
+                                sc.op(&format!("cli-rx 5 {}", hex(&ka)));
+                            }
+                        }
+                    }
+                }
+                sc.op("cli-upd 5 100000");
+                sc.op("note expect-up:failover-not-connected");
+                sc.op("cli-q 5");
+                sc.op("note expect-up:failover-not-connected");
+                sc.op("srv-q 0 48");
+            }
+        }
+        // a half-open handshake for client id X at address B; X connects from A with another token; B's retried
+        // request (and its response) get no answer
+        17 => {
+            let mut spec = base_spec(rng, 40, proto, key, 5, &hosts); // same client id as cls[0]
+            spec.expire = 35;
+            spec.seal_expire = 35;
+            let b = a4(10, 9, 0, 9, 4909);
+            if let Some(cb) = new_client(&mut sc, 5, &b, &spec, 5_000_000) {
+                let mut chal_b: Option<Vec<u8>> = None;
+                let mut req_b: Vec<u8> = vec![];
+                if let (_, Some(k)) = sc.opd("cli-upd 5 0") {
+                    req_b = sc.hist[k].bytes.clone();
+                    if let (_, Some(k)) = sc.opd(&format!("srv-rx 0 {} {}", cb.addr, hex(&req_b))) {
+                        chal_b = Some(sc.hist[k].bytes.clone());
+                    }
+                }
+                sc.op("srv-dump 0");
+                fast_connect(&mut sc, &cls[0]);
+                sc.op("srv-dump 0");
+                // B retries
+                sc.op(&format!("srv-rx 0 {} {}", cb.addr, hex(&req_b)));
+                sc.op("srv-dump 0");
+                if let Some(ch) = chal_b {
+                    sc.op(&format!("cli-rx 5 {}", hex(&ch)));
+                    if let (_, Some(k)) = sc.opd("cli-upd 5 0") {
+                        let resp = sc.hist[k].bytes.clone();
+                        sc.op(&format!("srv-rx 0 {} {}", cb.addr, hex(&resp)));
+                    }
+                }
+                sc.op(&format!("srv-rx 0 {} {}", cb.addr, hex(&req_b)));
+                // the same with a full server
+                fast_connect(&mut sc, &cls[1]);
+                sc.op(&format!("srv-rx 0 {} {}", cb.addr, hex(&req_b)));
+                sc.op("srv-dump 0");
+            }
+        }
         // sequence 2^64-1 (the window's EMPTY sentinel) from the owner of a session
         _ => {
             fast_connect(&mut sc, &cls[0]);
@@ -2441,14 +2550,26 @@ fn script_failover(rng: &mut Rng, _tier: Tier, f: &mut dyn FnMut(&str) -> String
     let max = rng.pick(&[2usize, 3, 4]);
     let srv = setup_server(&mut sc, rng, max);
     let now_s = srv.now_us / 1_000_000;
-    let n_clients = rng.range(1, 2) as usize;
+    // rarely: a (nearly) full token of 31 / 32 addresses whose last or last-but-one address is the only live one
+    let big = rng.chance(1, 10);
+    let n_clients = if big { 1 } else { rng.range(1, 2) as usize };
     let mut fcs: Vec<FoClient> = vec![];
     for i in 0..n_clients {
-        let n = rng.range(2, 4) as usize;
-        let k = if rng.chance(1, 6) { 0 } else { rng.range(1, n as u64 - 1) as usize };
+        let n = if big { rng.pick(&[31usize, 32, 32]) } else { rng.range(2, 4) as usize };
+        let k = if big {
+            if rng.chance(1, 4) {
+                n - 2
+            } else {
+                n - 1
+            }
+        } else if rng.chance(1, 6) {
+            0
+        } else {
+            rng.range(1, n as u64 - 1) as usize
+        };
         let list: Vec<String> = (0..n).map(|j| if j == k { SRV_A.to_string() } else { a4(10, 77, i as u8, j as u8, 5800 + j as u16) }).collect();
         let mut spec = base_spec(rng, 600 + i as u64, srv.proto, srv.key, now_s, &list.join(","));
-        spec.timeout = rng.pick(&[1, 2, 3]);
+        spec.timeout = if big { 1 } else { rng.pick(&[1, 2, 3]) };
         spec.expire = now_s + 300;
         spec.seal_expire = spec.expire;
         let addr = a4(10, 6, 0, 1 + i as u8, 4600 + i as u16);
@@ -2466,11 +2587,17 @@ fn script_failover(rng: &mut Rng, _tier: Tier, f: &mut dyn FnMut(&str) -> String
     let mut connected: Vec<u64> = vec![];
     let mut lossless_since: Vec<Option<u64>> = vec![None; fcs.len()];
     let mut ticks = 0;
-    while ticks < 200 && sc.n < 260 && !fcs.iter().all(|c| c.done) {
+    while ticks < 200 && sc.n < 320 && !fcs.iter().all(|c| c.done) {
         ticks += 1;
         // coarse steps while every client still waits on a silent address, fine steps near the live one
         let all_waiting = fcs.iter().all(|c| c.reached_us.is_none() && c.real_at > 0);
-        let dt: u64 = if all_waiting { rng.pick(&[500_000u64, 700_000, 1_000_000]) } else { rng.pick(&[50_000u64, 100_000, 100_000]) };
+        let dt: u64 = if all_waiting && big {
+            rng.pick(&[1_050_000u64, 1_050_000, 600_000])
+        } else if all_waiting {
+            rng.pick(&[500_000u64, 700_000, 1_000_000])
+        } else {
+            rng.pick(&[50_000u64, 100_000, 100_000])
+        };
         sc.op(&format!("srv-upd 0 {}", dt));
         for id in connected.clone() {
             let (_, e) = sc.opd(&format!("srv-updc 0 {}", id));
@@ -2491,6 +2618,13 @@ fn script_failover(rng: &mut Rng, _tier: Tier, f: &mut dyn FnMut(&str) -> String
             let (_, e) = sc.opd(&format!("cli-upd {} {}", h, dt));
             fcs[ci].t_us += dt;
             let q = sc.op(&format!("cli-q {}", h));
+            if fcs[ci].reached_us.is_none() && e.is_none() && field(&q, "disconnected") == Some("1") {
+                // it gave up although its token lists a live server it never tried
+                sc.op("note expect-up:failover-not-connected");
+                sc.op(&format!("cli-q {}", h));
+                fcs[ci].done = true;
+                continue;
+            }
             let mut outgoing: Vec<usize> = vec![];
             if let Some(k) = e {
                 if sc.hist[k].to == SRV_A {
@@ -2719,6 +2853,16 @@ fn oracle_window_once(ops: &[String], outs: &[String]) -> Option<OracleFail> {
     None
 }
 
+/// Traces that carry a liveness expectation (`note expect-up`) are not minimised: dropping updates or deliveries
+/// would break the hypotheses of the expectation (lossless phase, elapsed time) and yield a bogus counterexample.
+fn keep_liveness(ops: &[String]) -> usize {
+    if ops.iter().any(|o| o.starts_with("note expect-up")) {
+        ops.len()
+    } else {
+        keep_setup(ops)
+    }
+}
+
 fn keep_setup(ops: &[String]) -> usize {
     ops.iter().position(|o| o == "note setup-done").map(|i| i + 1).unwrap_or(0)
 }
@@ -2750,7 +2894,7 @@ pub fn profiles() -> Vec<Profile> {
             new_world,
             script: |_, _, _| {},
             nontrivial: |_| true,
-            keep: keep_setup,
+            keep: keep_liveness,
             fixed: Some(regress_ops),
         },
         Profile {
@@ -2821,7 +2965,7 @@ pub fn profiles() -> Vec<Profile> {
             new_world,
             script: script_failover,
             nontrivial: |t| any_out(t, "connected ") && t.ops.iter().any(|o| o.starts_with("note expect-up")),
-            keep: keep_setup,
+            keep: keep_liveness,
             fixed: None,
         },
         Profile {
@@ -3520,6 +3664,7 @@ fn oracle_payloads(ops: &[String], outs: &[String]) -> Option<OracleFail> {
     // (client handle, datagram) -> client instance (op index of its `cli-new`)
     let mut surfaced_cli: HashMap<(String, Vec<u8>), usize> = HashMap::new();
     let mut session: HashMap<(String, u64), usize> = HashMap::new();
+    let mut live_addr: HashSet<(String, String)> = HashSet::new();
     let mut expect = false;
     walk(ops, outs, &mut |i, t, out, input, em| {
         let expected = expect;
@@ -3547,10 +3692,20 @@ fn oracle_payloads(ops: &[String], outs: &[String]) -> Option<OracleFail> {
                     by_server.insert(d.clone(), (t[1].to_string(), p_u64(t[2]).unwrap_or(0), t[3].to_string()));
                 }
             }
+            "srv-updc" | "srv-disc" => {
+                let o = toks(out);
+                if o.len() >= 3 && o[0] == "disconnected" {
+                    live_addr.remove(&(t[1].to_string(), o[2].to_string()));
+                }
+            }
             "srv-rx" if t.len() == 4 => {
                 let o = toks(out);
+                if o.len() >= 3 && o[0] == "disconnected" {
+                    live_addr.remove(&(t[1].to_string(), o[2].to_string()));
+                }
                 if o.len() == 5 && o[0] == "connected" {
                     session.insert((t[1].to_string(), p_u64(o[1]).unwrap_or(0)), i);
+                    live_addr.insert((t[1].to_string(), o[2].to_string()));
                 }
                 if o.len() == 3 && o[0] == "payload" {
                     let d = input?;
@@ -3571,7 +3726,9 @@ fn oracle_payloads(ops: &[String], outs: &[String]) -> Option<OracleFail> {
                             format!("a datagram surfaced in an earlier session of client {} (connected at op {}) was surfaced again after the session was re-established with the same connect token (connected at op {})", o[1], prev, cur),
                         );
                     }
-                } else if expected && out != "panic" && out != "dead" {
+                } else if expected && out != "panic" && out != "dead" && out != "bad-op" && live_addr.contains(&(t[1].to_string(), t[2].to_string())) && input.map(|d| by_client.contains_key(d)).unwrap_or(false) {
+                    // (judged only while the source address is connected and the datagram is a generated one:
+                    // a minimised trace that lost the session is not a counterexample)
                     return fail(i, "genuine-not-surfaced:server", format!("a fresh in-window genuine payload datagram was not surfaced: `{}`", trunc_s(out, 40)));
                 }
             }
@@ -3592,7 +3749,7 @@ fn oracle_payloads(ops: &[String], outs: &[String]) -> Option<OracleFail> {
                         }
                         return fail(i, "cross-session-replay", format!("client {} surfaced a datagram that an earlier client instance with the same token had surfaced", t[1]));
                     }
-                } else if expected && out != "panic" && out != "dead" {
+                } else if expected && out != "panic" && out != "dead" && out != "bad-op" && input.map(|d| by_server.contains_key(d)).unwrap_or(false) {
                     return fail(i, "genuine-not-surfaced:client", format!("a fresh in-window genuine payload datagram was not surfaced: `{}`", trunc_s(out, 40)));
                 }
             }
@@ -3794,8 +3951,8 @@ fn oracle_expect_up(ops: &[String], outs: &[String]) -> Option<OracleFail> {
         }
         let sig = ops[i].strip_prefix("note expect-up:").unwrap_or("not-connected-after-lossless-phase");
         let o = &outs[i + 1];
-        if o == "panic" || o == "dead" {
-            continue;
+        if o == "panic" || o == "dead" || o == "bad-op" {
+            continue; // (a shrunk trace that lost the client is not a counterexample)
         }
         let t = toks(&ops[i + 1]);
         let up = match t.first().cloned() {
@@ -3913,6 +4070,72 @@ fn oracle_failover_patient(ops: &[String], outs: &[String]) -> Option<OracleFail
     None
 }
 
+
+/// C18 (fail-over completeness): a client gives up with Connection{Request,Response}TimedOut only after it has
+/// addressed every server of its token (tokens of these profiles list pairwise distinct addresses)
+fn oracle_failover_tries_all(ops: &[String], outs: &[String]) -> Option<OracleFail> {
+    struct C {
+        naddrs: usize,
+        tried: Vec<String>,
+        gave_up: bool,
+    }
+    let mut cl: HashMap<String, C> = HashMap::new();
+    for i in 0..ops.len().min(outs.len()) {
+        let t = toks(&ops[i]);
+        if t.len() < 2 {
+            continue;
+        }
+        let h = t[1].to_string();
+        match t[0] {
+            "cli-new" if t.len() == 4 => {
+                cl.remove(&h);
+                if outs[i] == "ok" {
+                    if let Some(b) = p_hex(t[3]) {
+                        if let Ok(tok) = ConnectToken::read(&mut &b[..]) {
+                            let list: Vec<String> = tok.server_addresses.iter().flatten().map(|a| addr_text(a)).collect();
+                            let distinct: HashSet<&String> = list.iter().collect();
+                            if distinct.len() == list.len() {
+                                // the first address is on trial from the moment the client exists
+                                cl.insert(h, C { naddrs: list.len(), tried: list.iter().take(1).cloned().collect(), gave_up: false });
+                            }
+                        }
+                    }
+                }
+            }
+            "cli-upd" if t.len() == 3 => {
+                if let Some(c) = cl.get_mut(&h) {
+                    let o = toks(&outs[i]);
+                    if o.len() == 3 && o[0] == "send" && !c.tried.iter().any(|a| a == o[1]) {
+                        c.tried.push(o[1].to_string());
+                    }
+                }
+            }
+            "cli-q" | "cli-dump" => {
+                if let Some(c) = cl.get_mut(&h) {
+                    let o = &outs[i];
+                    let timed_out = if t[0] == "cli-q" {
+                        matches!(field(o, "reason"), Some("ConnectionRequestTimedOut") | Some("ConnectionResponseTimedOut"))
+                    } else {
+                        matches!(field(o, "state"), Some("Disconnected(ConnectionRequestTimedOut)") | Some("Disconnected(ConnectionResponseTimedOut)"))
+                    };
+                    if timed_out && !c.gave_up {
+                        c.gave_up = true;
+                        if c.tried.len() < c.naddrs {
+                            return fail(
+                                i,
+                                "failover-skipped-address",
+                                format!("client {} gave up (no more servers) after trying {} of the {} server addresses of its token", h, c.tried.len(), c.naddrs),
+                            );
+                        }
+                    }
+                }
+            }
+            _ => {}
+        }
+    }
+    None
+}
+
 // ----- C19 / C05: no answer at all to a datagram that does not carry a valid connect token --------------------
 
 /// Every connection request whose token is not valid for this server, this moment and this source address
@@ -3995,6 +4218,10 @@ fn oracle_silent_to_invalid(ops: &[String], outs: &[String]) -> Option<OracleFai
                                         Some("tampered-public-fields")
                                     } else if s.cfg.secure && !k.addrs.iter().any(|a| s.cfg.addrs.contains(a)) {
                                         Some("wrong-host")
+                                    } else if s.addrs.contains(&addr) {
+                                        Some("address-already-connected")
+                                    } else if s.ids.contains(&k.id) {
+                                        Some("client-id-already-connected")
                                     } else if s.bound.get(&ti).map(|b| *b != addr).unwrap_or(false) {
                                         Some("bound-to-other-address")
                                     } else {
@@ -4017,10 +4244,7 @@ fn oracle_silent_to_invalid(ops: &[String], outs: &[String]) -> Option<OracleFai
                                 // a valid token: it becomes bound to this address unless the server stops before
                                 // looking at its table (client id or address already connected)
                                 let ti = ti.unwrap();
-                                let k = &tokens[ti];
-                                if !s.ids.contains(&k.id) && !s.addrs.contains(&addr) {
-                                    s.bound.entry(ti).or_insert(addr.clone());
-                                }
+                                s.bound.entry(ti).or_insert(addr.clone());
                                 if answered {
                                     s.requested.insert((addr.clone(), ti));
                                 }
@@ -4111,6 +4335,7 @@ pub fn oracles() -> Vec<Oracle> {
         Oracle { prop: "C18", name: "nc-handshake-completes", engines: &["nc-regress", "nc-attacker"], check: oracle_expect_connected },
         Oracle { prop: "C18", name: "nc-lossless-phase-connects", engines: &["nc-failover", "nc-regress"], check: oracle_expect_up },
         Oracle { prop: "C18", name: "nc-failover-patient", engines: &["nc-failover", "nc-handshake", "nc-regress", "nc-session", "nc-wire"], check: oracle_failover_patient },
+        Oracle { prop: "C18", name: "nc-failover-tries-all", engines: &["nc-failover", "nc-handshake", "nc-regress"], check: oracle_failover_tries_all },
         Oracle { prop: "C19", name: "nc-silent-to-invalid", engines: &["nc-handshake", "nc-attacker", "nc-hostile", "nc-session", "nc-regress", "nc-failover", "nc-known"], check: oracle_silent_to_invalid },
         Oracle { prop: "C05", name: "nc-silent-to-invalid", engines: &["nc-handshake", "nc-attacker", "nc-regress", "nc-table-full"], check: oracle_silent_to_invalid },
         Oracle { prop: "C18", name: "nc-timeouts-exact", engines: &["nc-handshake", "nc-session", "nc-hostile", "nc-regress"], check: oracle_timeouts },
